@@ -455,6 +455,22 @@ def fam_ctr(rng):
     return lines
 
 
+def fam_ctr_big(rng):
+    """C10 with counter values around 2^31 and 2^32 (any uint32 is a legal count): the counter never reaches zero,
+    so every timed wait must time out (non-zero result) and every value / add result must be exact; also through
+    nsync_wait_n."""
+    v0 = rng.choice([0x7fffffff, 0x80000000, 0x80000001, 0xfffffff0, 0x80000000 + rng.randrange(2, 1000), 0xffffffff])
+    lines = ["sem %s" % rng.choice(["counting", "binary"]), "objs mu=1 var=1", "pre ctr_new k0 %d ; note_new n0 - inf" % v0]
+    for i in range(rng.choice([1, 2, 2])):
+        ops = ["yield"] * rng.randrange(0, 3) + [rng.choice(["ctr_add k0 -1", "ctr_add k0 -1", "ctr_add k0 0"]) for _ in range(rng.choice([1, 2, 3]))]   # never an increment: 2^32-1 + 1 would be a wrap to zero
+        lines.append("fiber " + " ; ".join(ops))
+    for i in range(rng.choice([1, 2, 3])):
+        dl = rng.choice(["p1000", "p3000", "p90000", "m5", "z"])
+        w = "ctr_wait k0 %s" % dl if rng.random() < 0.7 else "waitn - %s n0 k0" % dl
+        lines.append("fiber " + " ; ".join(["yield"] * rng.randrange(0, 2) + [w, "ctr_value k0"]))
+    return lines
+
+
 import gen_note as _gn
 try:
     import gen_waitn as _gw
@@ -466,7 +482,7 @@ except Exception:
     _gm = None
 
 FAMILIES = {"alloc_fail": fam_alloc_fail, "note": _gn.fam_note, "note_f4": _gn.fam_note_f4, "note_f4b": _gn.fam_note_f4b, "note_f7": _gn.fam_note_f7, "refcount": fam_refcount, "starve": fam_starve, "cv_rsignal": fam_cv_rsignal, "ctr": fam_ctr, "once": fam_once, "futex": fam_futex,"core": fam_core, "cv": fam_cv, "cv_raw": fam_cv_raw, "muwait": fam_muwait, "debug": fam_debug,
-            "waitn_cv": fam_waitn_cv, "waitn_rep": fam_waitn_rep, "cancel_children": fam_cancel_children, "cv_rwr": fam_cv_rwr, "muc_eqmix": fam_muc_eqmix, "timed_contended": fam_timed_contended, "waitn_mon": fam_waitn_mon, "cancel_only": fam_cancel_only, "mixed": fam_mixed}
+            "waitn_cv": fam_waitn_cv, "waitn_rep": fam_waitn_rep, "ctr_big": fam_ctr_big, "cancel_children": fam_cancel_children, "cv_rwr": fam_cv_rwr, "muc_eqmix": fam_muc_eqmix, "timed_contended": fam_timed_contended, "waitn_mon": fam_waitn_mon, "cancel_only": fam_cancel_only, "mixed": fam_mixed}
 
 
 if _gw is not None:
